@@ -56,7 +56,7 @@ class ModelsOps:
                     return isinstance(v, (TupleV, ListV, TermV, DictV, GenV)) or \
                         (isinstance(v, ObjV) and v.ci is not None and self.prog.lookup(v.ci, "__iter__") is not None)
             I.unsupported(node, f"isinstance against {spec!r}")
-        if isinstance(spec, (UnitV, QtyV, Num, StrV, NoneV, RateV, ListV, BoolV)):
+        if isinstance(spec, (UnitV, QtyV, Num, StrV, NoneV, RateV, ListV, BoolV, ObjV, TermV)) or type(spec).__name__ == "DictV":
             # isinstance() arg 2 must be a type, a tuple of types, or a union
             self.flag("bad-isinstance", node, f"isinstance against a value that is no type: {spec!r}")
             I.raise_("TypeError", node)
